@@ -385,6 +385,9 @@ namespace bloch::runtime {
 
         // Generic templates (stored by base class name without arguments)
         std::unordered_map<std::string, compiler::ClassDeclaration*> m_genericTemplates;
+        // true while buildClassTable is laying classes out: static initialisers wait until
+        // every class of the program exists (execute() then runs them in name order)
+        bool m_buildingClassTable = false;
     };
 
 }  // namespace bloch::runtime
